@@ -98,12 +98,14 @@ pub struct GenOpts {
     pub density: f64,
     pub p_kind: u32,       // 0 none, 1 low-rank, 2 random (by draw)
     pub mag_exp: f64,      // entries 10^U(0,mag_exp)
+    pub inf_rows: f64,     // probability that a nonnegative row gets an infinite right-hand side
+    pub obj_scale_exp: f64, // objective (P,q) multiplied by 10^U(-e,e)
 }
 
 impl Default for GenOpts {
     fn default() -> Self {
         GenOpts { nmax: 8, max_cones: 4, soc_max: 6, psd_max: 3, allow_nonsym: true, allow_genpow: true,
-                  allow_zero: true, bad_scaling: 0.0, scale_exp: 4.0, density: 0.6, p_kind: 2, mag_exp: 0.0 }
+                  allow_zero: true, bad_scaling: 0.0, scale_exp: 4.0, density: 0.6, p_kind: 2, mag_exp: 0.0, inf_rows: 0.0, obj_scale_exp: 0.0 }
     }
 }
 
@@ -246,7 +248,16 @@ fn row_scales(cones: &[ConeSpec], rng: &mut StdRng, e: f64) -> Vec<f64> {
 /// Strictly feasible primal-dual pair planted: (x0,s0) primal interior, (x0,z0) dual interior.
 pub fn planted_feasible(rng: &mut StdRng, o: &GenOpts) -> Problem {
     let n = rng.gen_range(1..=o.nmax);
-    let cones = random_cones(rng, o, n);
+    planted_feasible_n(rng, o, n, 0)
+}
+
+/// as planted_feasible with n fixed and at least `min_m` rows (nonnegative rows are appended)
+pub fn planted_feasible_n(rng: &mut StdRng, o: &GenOpts, n: usize, min_m: usize) -> Problem {
+    let mut cones = random_cones(rng, o, n);
+    let m0: usize = cones.iter().map(|c| c.numel()).sum();
+    if m0 < min_m {
+        cones.push(ConeSpec::Nonneg(min_m - m0));
+    }
     let m: usize = cones.iter().map(|c| c.numel()).sum();
     let mut a = random_dense(rng, m, n, o);
     let x0: Vec<f64> = (0..n).map(|_| normal(rng)).collect();
@@ -272,6 +283,38 @@ pub fn planted_feasible(rng: &mut StdRng, o: &GenOpts) -> Problem {
             }
         }
     }
+    // rows of nonnegative cones with an infinite bound: vacuous constraints, so the planted dual
+    // point carries z0 = 0 there
+    let mut infrow = vec![false; m];
+    if o.inf_rows > 0.0 {
+        let mut off = 0;
+        for c in &cones {
+            if let ConeSpec::Nonneg(k) = c {
+                for i in off..off + k {
+                    if rng.gen::<f64>() < o.inf_rows {
+                        infrow[i] = true;
+                        z0[i] = 0.0;
+                    }
+                }
+            }
+            off += c.numel();
+        }
+        if infrow.iter().any(|x| *x) {
+            tag.push_str("+infb");
+        }
+    }
+    if o.obj_scale_exp > 0.0 {
+        let sc = 10f64.powf(unif(rng, -o.obj_scale_exp, o.obj_scale_exp));
+        tag.push_str("+objscale");
+        for i in 0..n {
+            for j in 0..n {
+                pd[i][j] *= sc;
+            }
+        }
+        for i in 0..m {
+            z0[i] *= sc;
+        }
+    }
     // b = A x0 + s0 ; q = -(P x0 + A' z0)
     let mut b = vec![0.0; m];
     for i in 0..m {
@@ -289,6 +332,12 @@ pub fn planted_feasible(rng: &mut StdRng, o: &GenOpts) -> Problem {
             q[j] -= a[i][j] * z0[i];
         }
     }
+    let infval = [1e20, 1e30, 5e20, f64::MAX][rng.gen_range(0..4)];
+    for i in 0..m {
+        if infrow[i] {
+            b[i] = infval;
+        }
+    }
     Problem { P: triu_of(&pd, n), q, A: Csc::from_dense(&a, m, n), b, cones, settings: json!({}), tag }
 }
 
@@ -297,7 +346,11 @@ pub fn planted_pinf(rng: &mut StdRng, o: &GenOpts) -> Problem {
     let n = rng.gen_range(1..=o.nmax);
     let mut oo = o.clone();
     oo.allow_zero = true;
-    let cones = random_cones(rng, &oo, n);
+    let mut cones = random_cones(rng, &oo, n);
+    // with a single row the projection A'z0 = 0 would leave only rounding noise in A
+    if cones.iter().map(|c| c.numel()).sum::<usize>() < 2 {
+        cones.push(ConeSpec::Nonneg(2));
+    }
     let m: usize = cones.iter().map(|c| c.numel()).sum();
     let mut a = random_dense(rng, m, n, o);
     let z0 = cone_points(&cones, rng, true);
@@ -389,6 +442,22 @@ pub fn random_settings(rng: &mut StdRng, sym: bool) -> serde_json::Value {
         s.insert("tol_feas".into(), json!(t));
         s.insert("tol_gap_abs".into(), json!(t));
         s.insert("tol_gap_rel".into(), json!(t));
+    }
+    // every tolerance varied on its own, so that no two of them coincide by default
+    if rng.gen::<f64>() < 0.35 {
+        let pick = |rng: &mut StdRng, v: &[f64]| v[rng.gen_range(0..v.len())];
+        for (name, vals) in [
+            ("tol_gap_abs", vec![1e-5, 1e-7, 1e-9, 1e-30]), ("tol_gap_rel", vec![1e-5, 1e-7, 1e-9, 1e-30]),
+            ("tol_feas", vec![1e-5, 1e-7, 1e-9, 1e-30]), ("tol_infeas_abs", vec![1e-6, 1e-9]),
+            ("tol_infeas_rel", vec![1e-6, 1e-9]), ("tol_ktratio", vec![1e-5, 1e-7]),
+            ("reduced_tol_gap_abs", vec![1e-2, 1e-3, 5e-5, 1e-10]), ("reduced_tol_gap_rel", vec![1e-2, 5e-5, 1e-6, 1e-10]),
+            ("reduced_tol_feas", vec![1e-2, 1e-4, 1e-6]), ("reduced_tol_infeas_abs", vec![5e-12, 1e-8]),
+            ("reduced_tol_infeas_rel", vec![5e-5, 1e-3]), ("reduced_tol_ktratio", vec![1e-4, 1e-3]),
+        ] {
+            if rng.gen::<f64>() < 0.4 {
+                s.insert(name.into(), json!(pick(rng, &vals)));
+            }
+        }
     }
     if rng.gen::<f64>() < 0.3 {
         s.insert("equilibrate_enable".into(), json!(false));
